@@ -28,6 +28,28 @@ type Sys struct {
 	Pts     *Points
 	cancel  context.CancelFunc
 	stopped bool
+	onStop  []func()
+	done    chan struct{}
+}
+
+// OnStop registers a function that runs at the beginning of Stop/StopNow (release gates there).
+func (s *Sys) OnStop(f func()) { s.onStop = append(s.onStop, f) }
+
+// Done is closed when the operator is being torn down (harness goroutines must exit then).
+func (s *Sys) Done() <-chan struct{} { return s.done }
+
+func (s *Sys) runOnStop() {
+	for _, f := range s.onStop {
+		f()
+	}
+	s.onStop = nil
+	if s.done != nil {
+		select {
+		case <-s.done:
+		default:
+			close(s.done)
+		}
+	}
 }
 
 func RepoDir() string {
@@ -45,7 +67,7 @@ func NewSys(hs *HookSet, cluster *fake.Cluster) (*Sys, error) {
 		cluster = fake.NewFakeCluster(fake.ClusterVersionV127)
 	}
 	ctx, cancel := context.WithCancel(context.Background())
-	s := &Sys{HS: hs, Cluster: cluster, cancel: cancel}
+	s := &Sys{HS: hs, Cluster: cluster, cancel: cancel, done: make(chan struct{})}
 	s.Pts = InstallPoints()
 	op, err := shell_operator.VerifAssemble(shell_operator.VerifConfig{
 		Ctx:            ctx,
@@ -151,6 +173,7 @@ func (s *Sys) Stop() {
 		return
 	}
 	s.stopped = true
+	s.runOnStop()
 	s.Settle(20)
 	s.Pts.Uninstall()
 	if s.Op != nil && s.Op.TaskQueues != nil && s.Op.ScheduleManager != nil && s.Op.KubeEventsManager != nil {
@@ -166,6 +189,7 @@ func (s *Sys) StopNow() {
 		return
 	}
 	s.stopped = true
+	s.runOnStop()
 	s.Pts.Uninstall()
 	s.cancel()
 	s.drain()
